@@ -766,6 +766,94 @@ def run_norm(rep, tier):
 
 
 # ------------------------------------------------------------------------------------------------
+# =========================================================================================================
+# part 3: component views of sliced multi-component meshes
+# =========================================================================================================
+VIEW_SLICES = {
+    'whole': lambda nd: (slice(None),) * (nd + 1),
+    'every_second': lambda nd: (slice(None),) * nd + (slice(None, None, 2),),
+    'reversed': lambda nd: (slice(None),) * nd + (slice(None, None, -1),),
+    'window': lambda nd: (slice(None),) * nd + (slice(1, 3),),
+    'window_first_axis': lambda nd: (slice(None), slice(0, 2)) + (slice(None),) * (nd - 1),
+}
+
+
+def view_case(arg):
+    """A mesh with components, a slice of it, a component of that slice: the component must be a writable view of the
+    ORIGINAL buffer (writes through it change exactly the addressed entries of the original, later changes of the
+    original show through it).  Oracle: plain numpy on `A.view(np.ndarray)[k][slice]`."""
+    cls_name, shape, dtype, sname, order = arg
+    T = {'imex_mesh': imex_mesh, 'comp2_mesh': comp2_mesh}[cls_name]
+    out = []
+    nd = len(shape)
+    sl = VIEW_SLICES[sname](nd)
+    A = T((tuple(shape), None, np.dtype(dtype)), val=0.0)
+    raw = A.view(np.ndarray)
+    raw[...] = (np.arange(raw.size, dtype=float).reshape(raw.shape) + 1) * (1 + (0.5j if np.dtype(dtype).kind == 'c' else 0))
+    if order == 'F':
+        # the same logical content in Fortran order (what a transposed solver array looks like)
+        A = np.asfortranarray(raw).view(T)
+        raw = A.view(np.ndarray)
+    sig0 = {'part': 'views', 'type': cls_name, 'shape': list(shape), 'dtype': dtype, 'slice': sname, 'order': order}
+    try:
+        V = A[sl]
+    except Exception as e:  # noqa: BLE001
+        out.append(({**sig0, 'kind': 'slicing_raised'}, {'error': f'{type(e).__name__}: {e}'[:160]}))
+        return out
+    if not isinstance(V, T):
+        return out  # the slice is no multi-component mesh any more: nothing to judge
+    for k, cname in enumerate(T.components):
+        ref = raw[(k,) + sl[1:]]
+        if ref.size == 0:
+            continue
+        try:
+            comp = getattr(V, cname)
+        except Exception as e:  # noqa: BLE001
+            out.append(({**sig0, 'kind': 'component_access_raised', 'component': cname}, {'error': f'{type(e).__name__}: {e}'[:160]}))
+            continue
+        c = np.asarray(comp)
+        if c.shape != ref.shape or np.any(c != ref):
+            out.append(({**sig0, 'kind': 'component_values', 'component': cname}, {'expected_shape': list(ref.shape), 'observed_shape': list(c.shape)}))
+            continue
+        before = raw.copy()
+        comp[...] = -7.0
+        want = before.copy()
+        want[(k,) + sl[1:]] = -7.0
+        if np.any(raw != want):
+            out.append(({**sig0, 'kind': 'write_through_component_lost', 'component': cname}, {'entries_changed_in_original': int(np.sum(raw != before)), 'entries_expected_to_change': int(ref.size), 'shares_memory': bool(np.shares_memory(c, raw))}))
+            raw[...] = before
+            continue
+        raw[...] = before + 100.0
+        if np.any(np.asarray(comp) != raw[(k,) + sl[1:]]):
+            out.append(({**sig0, 'kind': 'component_does_not_follow_original', 'component': cname}, {}))
+        raw[...] = before
+    return out
+
+
+def view_cases(tier):
+    shapes = [(4,), (3, 4)] if tier == 'quick' else [(4,), (5,), (3, 4), (2, 3, 4)]
+    out = []
+    for cls_name in ('imex_mesh', 'comp2_mesh'):
+        for shape in shapes:
+            for dtype in ('float64', 'complex128'):
+                for sname in VIEW_SLICES:
+                    if sname == 'window_first_axis' and len(shape) < 2:
+                        continue
+                    for order in ('C', 'F'):
+                        out.append((cls_name, shape, dtype, sname, order))
+    return out
+
+
+def run_views(rep, tier):
+    cases = view_cases(tier)
+    n = 0
+    for arg, res in zip(cases, common.pmap(view_case, cases, chunksize=8)):
+        n += 1
+        for sig, det in res:
+            rep.violation(sig, det, {'part': 'views', 'arg': [arg[0], list(arg[1]), arg[2], arg[3], arg[4]]})
+    return n
+
+
 def run(rep, tier):
     rep.assumptions += [
         'element values, dtype promotion and broadcasting of the reference interpreter are plain numpy on plain ndarrays (numpy is trusted; the subclass plumbing of the data types is under test)',
@@ -775,6 +863,8 @@ def run(rep, tier):
     tot, worst, bounds, samples = run_opseq(rep, tier)
     nev, nworst, nunits = run_norm(rep, tier)
     runs = _c13_runs.run_level(rep, tier)
+    nviews = run_views(rep, tier)
+    rep.coverage['component_view_cases'] = nviews
     rep.coverage.update(
         {
             'evaluations': tot['nodes'] + nev + runs['runs'],
@@ -811,5 +901,9 @@ def replay(rep, case):
             if sig['axiom'] == case['axiom']:
                 rep.violation({**sig, 'family': FAMILY[sig['type']], 'dtype': rp['dtype'], 'n': rp['n']}, det, rp)
                 break
+    elif part == 'views':
+        a = case['arg']
+        for sig, det in view_case((a[0], tuple(a[1]), a[2], a[3], a[4])):
+            rep.violation(sig, det, case)
     else:
         _c13_runs.replay(rep, case)
